@@ -254,6 +254,7 @@ def multi_anchor_systems(quick):
         if quick and order not in ((0, 1, 2), (1, 2, 0), (2, 0, 1)):      # quick: each molecule is the first anchor once
             continue
         build("anch3/order=%s" % "".join(map(str, order)), [A, B, C], 1, list(order))
+        out[-1]["face7_quick"] = order != (0, 1, 2)      # quick: complete 27^2 for one order, 7^2 face placements for the others
     build("anch2/guessed", [A, B], 18, "guess")              # 20 molecules -> both bonded molecules are anchors
     if not quick:
         build("anch3/guessed", [A, B, C], 27, "guess")       # 30 molecules
@@ -371,7 +372,8 @@ def scatters(sysv, full):
     n = sysv["n"]
     if sysv.get("molshift"):
         ms = sysv["molshift"]
-        imgs = IMAGES if (len(ms) == 1 or n <= 12) else np.vstack([np.zeros((1, 3), np.int64), FACE6])
+        imgs = IMAGES if (len(ms) == 1 or (n <= 12 and (full or not sysv.get("face7_quick")))) \
+            else np.vstack([np.zeros((1, 3), np.int64), FACE6])
         idx = np.array(list(itertools.product(range(len(imgs)), repeat=len(ms))))
         sc = np.zeros((len(idx), n, 3), np.int64)
         for col, mi in enumerate(ms):
